@@ -42,7 +42,18 @@ func unrot(c byte, k int) byte {
 
 // shift of the real fonts and of decoy fonts (decoys are placed on tree levels
 // above the level that must win)
-func shiftOf(font int, decoy int) int { return []int{0, 0, 13, 31}[font] + 7*decoy }
+func shiftOf(font int, decoy int) int {
+	if font >= 2 {
+		return []int{0, 0, 13, 31}[font] + 7*decoy + TwinShift
+	}
+	return 7 * decoy
+}
+
+// TwinShift moves the code permutation of the ToUnicode fonts. A document built with another TwinShift is a
+// "twin": the same objects under the same numbers at (nearly) the same offsets, the same text, but different
+// string bytes and different ToUnicode maps - whatever a reader keys by object number, resource name or
+// position must not carry over from one twin to the other. Set only while building (not concurrency-safe).
+var TwinShift int
 
 // EncodeToken gives the string operand bytes for item <font, tok>.
 func EncodeToken(font, tok int) []byte {
